@@ -17,45 +17,20 @@ From Coq Require Import NArith List Bool Lia.
 Import ListNotations.
 Require Import SR.Base.Res SR.Spec.Transparency SR.Model.HeaderRow SR.Model.Workbook SR.Proofs.WorkbookP.
 Require SR.Model.Csv SR.Model.Ndjson SR.Proofs.CsvP SR.Proofs.NdjsonP.
-
-Definition text_format (f : fmt) : bool := match f with F_CSV | F_TAB | F_NDJSON => true | _ => false end.
-Definition delimiter_of (f : fmt) : N := match f with F_TAB => Csv.TAB | _ => Csv.COMMA end.
-
-Definition sheet_text (T : table) : list (list text) := t_header T :: t_rows T.
-Definition docs_of (T : table) : list Ndjson.doc := map (fun r => combine (t_header T) r) (t_rows T).
-
-Definition text_write (ea : bool) (f : fmt) (W : workbook) : list N :=
-  match W with
-  | [(_, T)] =>
-      match f with
-      | F_NDJSON => Ndjson.ndjson_write ea (docs_of T)
-      | F_CSV | F_TAB => Csv.csv_write (delimiter_of f) (sheet_text T)
-      | _ => []
-      end
-  | _ => []
-  end.
-
-Definition txt_doc (d : Ndjson.doc) : doc := map (fun kv => (fst kv, Txt (snd kv))) d.
-
-Definition text_parse (f : fmt) (img : list N) : content :=
-  match f with
-  | F_NDJSON => C_json (match Ndjson.ndjson_read img with Ndjson.Done docs => map txt_doc docs | _ => [] end)
-  | _ => C_single (match Csv.lib_read (delimiter_of f) img with Ok rows => map phys_row rows | Err _ => [] end)
-  end.
-
-Definition ndjson_table_ok (ea : bool) (T : table) : bool :=
-  forallb (Ndjson.text_ok ea) (t_header T) && forallb (forallb (Ndjson.text_ok ea)) (t_rows T).
-
-Definition text_storable (ea : bool) (f : fmt) (W : workbook) : bool :=
-  match W with
-  | [(_, T)] =>
-      match f with
-      | F_NDJSON => ndjson_table_ok ea T
-      | F_CSV | F_TAB => Csv.table_ok_raw (sheet_text T)
-      | _ => false
-      end
-  | _ => false
-  end.
+(* The definitions of this development that occur in theorem statements (Props/) live in Spec/TextFormatsWf.v (audit item G1).
+   The abbreviations keep the qualified names TextFormatsP.name of other files resolving; they are parsing-only aliases. *)
+Require Export SR.Spec.TextFormatsWf.
+Notation text_format := SR.Spec.TextFormatsWf.text_format (only parsing).
+Notation delimiter_of := SR.Spec.TextFormatsWf.delimiter_of (only parsing).
+Notation sheet_text := SR.Spec.TextFormatsWf.sheet_text (only parsing).
+Notation docs_of := SR.Spec.TextFormatsWf.docs_of (only parsing).
+Notation text_write := SR.Spec.TextFormatsWf.text_write (only parsing).
+Notation txt_doc := SR.Spec.TextFormatsWf.txt_doc (only parsing).
+Notation text_parse := SR.Spec.TextFormatsWf.text_parse (only parsing).
+Notation ndjson_table_ok := SR.Spec.TextFormatsWf.ndjson_table_ok (only parsing).
+Notation text_storable := SR.Spec.TextFormatsWf.text_storable (only parsing).
+Notation ex_text_T := SR.Spec.TextFormatsWf.ex_text_T (only parsing).
+Notation from_bytes := SR.Spec.TextFormatsWf.from_bytes (only parsing).
 
 Lemma delimiter_ok f : Csv.delim_ok (delimiter_of f) = true.
 Proof. destruct f; reflexivity. Qed.
@@ -137,12 +112,6 @@ Proof.
   symmetry. apply (facade_ok image ext_write ext_parse H); assumption.
 Qed.
 
-(* non-vacuity: a table with a quote, a delimiter, a line feed, a carriage return, CR LF, blanks, an empty cell,
-   non-ASCII and non-BMP text *)
-Definition ex_text_T : table :=
-  mk_table [[65]; [66; 34; 50]]%N
-           [[[97; 44; 98]; [233; 10; 128512]]; [[]; [32; 9; 32]]; [[8232; 133]; [34]]; [[97; 13; 98]; [13; 10]]]%N.
-
 Lemma ex_text_T_ok :
   wf_workbook [([], ex_text_T)]
   /\ text_storable true F_CSV [([], ex_text_T)] = true /\ text_storable true F_TAB [([], ex_text_T)] = true
@@ -155,9 +124,6 @@ Qed.
 
 (* ---- from the BYTES of the file (UTF-8, Model/Utf8.v) ---- *)
 Require Import SR.Model.Utf8 SR.Proofs.Utf8P.
-
-(* the file as bytes on disk, decoded as the text layer does, then read *)
-Definition from_bytes {A} (read : list N -> A) (bs : list N) : option A := option_map read (utf8_decode (length bs) bs).
 
 Lemma csv_bytes_roundtrip d T : Csv.delim_ok d = true -> scalar d = true -> Csv.table_ok_raw T = true ->
   forallb (forallb (forallb scalar)) T = true ->
